@@ -386,6 +386,11 @@ func monitor(c Case, log []Obs) []core.Violation {
 				if k == 0 && e.Kind == "keepalive" {
 					s0, haveS0 = e.Wal, true
 				}
+				if k == 0 && e.Kind == "keepalive-bad" {
+					// an unparsable first keepalive (never sent by PostgreSQL): the error is logged and
+					// the session starts at position 0
+					s0, haveS0 = 0, true
+				}
 				if e.Kind == "keepalive" && e.Reply && k > 0 {
 					pendingReply = true
 				}
